@@ -56,9 +56,10 @@ Record sub_t := mkSub {
   s_fail : option nat;        (* the failure the loop recorded for it (done <- err) *)
   s_reg : option nat;         (* length of [order] when it was registered *)
   s_rem : option (nat * rem_why); (* length of [order] when it was removed, and why *)
-  s_cancel : option nat       (* length of [order] when its cancellation was requested *)
+  s_cancel : option nat;      (* length of [order] when its cancellation was requested *)
+  s_rsnap : option nat        (* length of [puts] when Replay was called for it *)
 }.
-Definition sub0 : sub_t := mkSub S0 false None false [] [] [] None None None None.
+Definition sub0 : sub_t := mkSub S0 false None false [] [] [] None None None None None.
 
 (* Publish: joe.go:164-188 *)
 Inductive pub_pc := P0 | PAtSel | PWait | PRet (r : option nat).
@@ -134,27 +135,30 @@ Definition set_shut (s : state) (h : nat) (x : shut_t) : state :=
   mkSt (pc s) (subs s) (rep s) (done_closed s) (closed_closed s) (order s) (puts s) (sub s) (pub s) (upd (shut s) h x).
 
 Definition w_pc (x : sub_t) (v : sub_pc) : sub_t :=
-  mkSub v (s_ctx x) (s_dbuf x) (s_dclosed x) (s_topics x) (s_rlog x) (s_llog x) (s_fail x) (s_reg x) (s_rem x) (s_cancel x).
+  mkSub v (s_ctx x) (s_dbuf x) (s_dclosed x) (s_topics x) (s_rlog x) (s_llog x) (s_fail x) (s_reg x) (s_rem x) (s_cancel x) (s_rsnap x).
 Definition w_ctx (x : sub_t) (v : bool) : sub_t :=
-  mkSub (s_pc x) v (s_dbuf x) (s_dclosed x) (s_topics x) (s_rlog x) (s_llog x) (s_fail x) (s_reg x) (s_rem x) (s_cancel x).
+  mkSub (s_pc x) v (s_dbuf x) (s_dclosed x) (s_topics x) (s_rlog x) (s_llog x) (s_fail x) (s_reg x) (s_rem x) (s_cancel x) (s_rsnap x).
 Definition w_dbuf (x : sub_t) (v : option nat) : sub_t :=
-  mkSub (s_pc x) (s_ctx x) v (s_dclosed x) (s_topics x) (s_rlog x) (s_llog x) (s_fail x) (s_reg x) (s_rem x) (s_cancel x).
+  mkSub (s_pc x) (s_ctx x) v (s_dclosed x) (s_topics x) (s_rlog x) (s_llog x) (s_fail x) (s_reg x) (s_rem x) (s_cancel x) (s_rsnap x).
 Definition w_dclosed (x : sub_t) (v : bool) : sub_t :=
-  mkSub (s_pc x) (s_ctx x) (s_dbuf x) v (s_topics x) (s_rlog x) (s_llog x) (s_fail x) (s_reg x) (s_rem x) (s_cancel x).
+  mkSub (s_pc x) (s_ctx x) (s_dbuf x) v (s_topics x) (s_rlog x) (s_llog x) (s_fail x) (s_reg x) (s_rem x) (s_cancel x) (s_rsnap x).
 Definition w_topics (x : sub_t) (v : list nat) : sub_t :=
-  mkSub (s_pc x) (s_ctx x) (s_dbuf x) (s_dclosed x) v (s_rlog x) (s_llog x) (s_fail x) (s_reg x) (s_rem x) (s_cancel x).
+  mkSub (s_pc x) (s_ctx x) (s_dbuf x) (s_dclosed x) v (s_rlog x) (s_llog x) (s_fail x) (s_reg x) (s_rem x) (s_cancel x) (s_rsnap x).
 Definition w_rlog (x : sub_t) (v : list wcall) : sub_t :=
-  mkSub (s_pc x) (s_ctx x) (s_dbuf x) (s_dclosed x) (s_topics x) v (s_llog x) (s_fail x) (s_reg x) (s_rem x) (s_cancel x).
+  mkSub (s_pc x) (s_ctx x) (s_dbuf x) (s_dclosed x) (s_topics x) v (s_llog x) (s_fail x) (s_reg x) (s_rem x) (s_cancel x) (s_rsnap x).
 Definition w_llog (x : sub_t) (v : list wcall) : sub_t :=
-  mkSub (s_pc x) (s_ctx x) (s_dbuf x) (s_dclosed x) (s_topics x) (s_rlog x) v (s_fail x) (s_reg x) (s_rem x) (s_cancel x).
+  mkSub (s_pc x) (s_ctx x) (s_dbuf x) (s_dclosed x) (s_topics x) (s_rlog x) v (s_fail x) (s_reg x) (s_rem x) (s_cancel x) (s_rsnap x).
 Definition w_fail (x : sub_t) (v : option nat) : sub_t :=
-  mkSub (s_pc x) (s_ctx x) (s_dbuf x) (s_dclosed x) (s_topics x) (s_rlog x) (s_llog x) v (s_reg x) (s_rem x) (s_cancel x).
+  mkSub (s_pc x) (s_ctx x) (s_dbuf x) (s_dclosed x) (s_topics x) (s_rlog x) (s_llog x) v (s_reg x) (s_rem x) (s_cancel x) (s_rsnap x).
 Definition w_reg (x : sub_t) (v : option nat) : sub_t :=
-  mkSub (s_pc x) (s_ctx x) (s_dbuf x) (s_dclosed x) (s_topics x) (s_rlog x) (s_llog x) (s_fail x) v (s_rem x) (s_cancel x).
+  mkSub (s_pc x) (s_ctx x) (s_dbuf x) (s_dclosed x) (s_topics x) (s_rlog x) (s_llog x) (s_fail x) v (s_rem x) (s_cancel x) (s_rsnap x).
 Definition w_rem (x : sub_t) (v : option (nat * rem_why)) : sub_t :=
-  mkSub (s_pc x) (s_ctx x) (s_dbuf x) (s_dclosed x) (s_topics x) (s_rlog x) (s_llog x) (s_fail x) (s_reg x) v (s_cancel x).
+  mkSub (s_pc x) (s_ctx x) (s_dbuf x) (s_dclosed x) (s_topics x) (s_rlog x) (s_llog x) (s_fail x) (s_reg x) v (s_cancel x) (s_rsnap x).
 Definition w_cancel (x : sub_t) (v : option nat) : sub_t :=
-  mkSub (s_pc x) (s_ctx x) (s_dbuf x) (s_dclosed x) (s_topics x) (s_rlog x) (s_llog x) (s_fail x) (s_reg x) (s_rem x) v.
+  mkSub (s_pc x) (s_ctx x) (s_dbuf x) (s_dclosed x) (s_topics x) (s_rlog x) (s_llog x) (s_fail x) (s_reg x) (s_rem x) v (s_rsnap x).
+
+Definition w_rsnap (x : sub_t) (v : option nat) : sub_t :=
+  mkSub (s_pc x) (s_ctx x) (s_dbuf x) (s_dclosed x) (s_topics x) (s_rlog x) (s_llog x) (s_fail x) (s_reg x) (s_rem x) (s_cancel x) v.
 
 Definition wp_pc (x : pub_t) (v : pub_pc) : pub_t := mkPub v (p_topics x) (p_ebuf x) (p_eclosed x).
 Definition wp_topics (x : pub_t) (v : list nat) : pub_t := mkPub (p_pc x) v (p_ebuf x) (p_eclosed x).
@@ -376,7 +380,9 @@ Definition step_live (s : state) (l : label) : option state :=
       | _ => None end
   | LReplay i =>
       match pc s with
-      | GotSub j => if Nat.eqb i j && rep s then Some (set_pc s (Replaying i)) else None
+      | GotSub j => if Nat.eqb i j && rep s
+                    then Some (set_pc (set_sub s i (w_rsnap (sub s i) (Some (length (puts s))))) (Replaying i))
+                    else None
       | _ => None end
   | LRSend i tok v =>
       match pc s with
